@@ -522,7 +522,105 @@ func exhaustive(c *hx.Ctx, n, r int) {
 	}
 }
 
+// entryOps ties the byte-level entry parsers to Model/XrefBytes.lean: conforming entries
+// (the round-trip theorems' domain) and damaged ones.
+func entryOps(c *hx.Ctx) {
+	r := hx.NewRng(c.Seed ^ 0xe117)
+	for i := 0; i < c.N(1500, 40000); i++ {
+		off := int64(r.U64() % uint64(hx.Pick(r, []int64{10, 1000, 100000, 10000000000})))
+		gen := r.Intn(hx.Pick(r, []int{2, 100, 65536, 100000}))
+		flag := hx.Pick(r, []string{"n", "f"})
+		line := fmt.Sprintf("%010d %05d %s", off, gen, flag) + hx.Pick(r, []string{" ", "", " \r", "\r", "  "})
+		conforming := true
+		if r.Chance(1, 4) { // damage: wrong flag, shifted fields, signs, spaces, short line
+			conforming = false
+			b := []byte(line)
+			switch r.Intn(6) {
+			case 0:
+				b[r.Intn(len(b))] = hx.Pick(r, []byte{' ', 'x', '+', '-', '9', 'n', 'f', '\t'})
+			case 1:
+				b = b[:r.Intn(len(b))]
+			case 2:
+				b = append([]byte{' '}, b...)
+			case 3:
+				b[17] = hx.Pick(r, []byte{'N', 'F', 'x', ' '})
+			case 4:
+				b[0] = '+'
+			case 5:
+				b[10] = hx.Pick(r, []byte{'0', 'x'})
+			}
+			line = string(b)
+		}
+		out := "err"
+		if e, err := core.VerifParseEntry(line); err == nil {
+			f := "f"
+			if e.InUse {
+				f = "n"
+			}
+			out = fmt.Sprintf("ok %d %d %s", e.Offset, e.Generation, f)
+		}
+		if conforming {
+			want := fmt.Sprintf("ok %d %d %s", off, gen, flag)
+			c.Check("C04/classic-entry-roundtrip", out == want, map[string]string{"line": line}, func() string {
+				return fmt.Sprintf("parseEntry(%q) = %s, the writer meant %s", line, out, want)
+			})
+		}
+		c.Op("c04.xent "+hx.HexS(line), out)
+		c.Case("xent"+line, out != "err")
+	}
+	for i := 0; i < c.N(1500, 40000); i++ {
+		w := []int{r.Intn(3), r.Intn(9), r.Intn(5)}
+		kind := r.Intn(3)
+		if w[0] == 0 {
+			kind = 1
+		}
+		lim := func(wd int) uint64 {
+			if wd >= 8 {
+				return 1 << 62
+			}
+			return uint64(1) << uint(8*wd)
+		}
+		f1 := int64(r.U64() % lim(w[1]))
+		f2 := int64(r.U64() % lim(w[2]))
+		if f2 > 1<<31 {
+			f2 %= 1 << 31
+		}
+		var data []byte
+		be := func(v int64, wd int) {
+			for k := wd - 1; k >= 0; k-- {
+				data = append(data, byte(v>>(8*uint(k))))
+			}
+		}
+		be(int64(kind), w[0])
+		be(f1, w[1])
+		be(f2, w[2])
+		conforming := true
+		if r.Chance(1, 5) {
+			conforming = false
+			if len(data) > 0 && r.Bool() {
+				data = data[:r.Intn(len(data))]
+			} else if w[0] > 0 {
+				data[w[0]-1] = byte(3 + r.Intn(200))
+			}
+		}
+		data = append(data, r.Bytes(r.Intn(4))...)
+		out := "err"
+		if e, n, err := core.VerifParseXRefStreamEntry(data, w); err == nil {
+			out = fmt.Sprintf("ok %d %d %d %d", int(e.Type), e.Offset, e.Generation, n)
+		}
+		if conforming {
+			want := fmt.Sprintf("ok %d %d %d %d", kind, f1, f2, w[0]+w[1]+w[2])
+			c.Check("C04/stream-entry-roundtrip", out == want, map[string]interface{}{"w": w, "data": hx.Hex(data)}, func() string {
+				return fmt.Sprintf("parseXRefStreamEntry(%x, %v) = %s, the writer meant %s", data, w, out, want)
+			})
+		}
+		c.Op(fmt.Sprintf("c04.xsent %d,%d,%d %s", w[0], w[1], w[2], hx.Hex(data)), out)
+		c.Case(fmt.Sprint("xsent", w, data), out != "err")
+	}
+}
+
 func Run(c *hx.Ctx) {
+	entryOps(c)
 	c.Rep.Rule = "revision histories (add/replace/delete per object per revision; classic or stream xref per revision; object-stream membership; indirect /Length; W widths; predictors) rendered by the harness PDF writer, then lookup sequences with repeats and ClearCache; exhaustive for n=2 objects x r<=2 (thorough: r<=3) revisions x both xref kinds; non-trivial = at least one lookup expected to succeed; distinct by (history, ops)"
 	exhaustive(c, 2, 1)
 	exhaustive(c, 2, 2)
